@@ -96,6 +96,12 @@ func (g *Gen) verifyFunc(fc *FuncContract) (vc *VC) {
 			st.src[p.Object()] = v
 		}
 		g.paramFacts(v)
+		if v.S == "Int" {
+			switch types.Unalias(p.Type()).Underlying().(type) {
+			case *types.Pointer, *types.Map, *types.Chan:
+				g.vc.assume("", fmt.Sprintf("(<= (allocid$ %s) 0)", v.T))
+			}
+		}
 	}
 	// closures verified standalone: free variables are arbitrary cells
 	for _, fv := range fn.FreeVars {
